@@ -72,8 +72,28 @@ async def run_history(loop: vclock.VLoop, hist: dict) -> dict:
     cfg: dict[str, Any] = {"disable_discovery": not hist.get("discovery", False), "enable_eavesdrop": bool(hist.get("eavesdrop"))}
     if hist.get("max_zones"):
         cfg["max_zones"] = hist["max_zones"]
-    gwy, port = await stack.make_gateway(eth, config=cfg, known_list=hist.get("known_list"), schema=hist.get("schema"))
-    obs: dict[str, Any] = {"view_failures": [], "state_ops": [], "probe": None, "gwy_id": port.gwy_id}
+    obs: dict[str, Any] = {"view_failures": [], "state_ops": [], "probe": None}
+    if hist.get("prestart"):  # the application snapshots / restores / reads views before it starts the gateway
+        gwy, port = await stack.make_gateway(eth, config=cfg, known_list=hist.get("known_list"), schema=hist.get("schema"), start=False)
+        for kind in hist["prestart"]:
+            rec: dict[str, Any] = {"at": "prestart", "kind": f"prestart-{kind}", "raised": None}
+            try:
+                if kind == "snapshot":
+                    gwy.get_state(include_expired=True)
+                elif kind == "restore":
+                    await gwy._restore_cached_packets({"2024-03-01T11:59:00.000000": "045  I --- 34:099998 --:------ 34:099998 30C9 003 0007D0"})
+                else:
+                    for f in read_views(gwy):
+                        obs["view_failures"].append(dict(f, at="prestart"))
+            except Exception as e:  # noqa: BLE001
+                rec["raised"] = {"exc": type(e).__name__, "site": site_of(e), "text": str(e)[:200]}
+            rec["before"] = rec["after"] = None
+            obs["state_ops"].append(rec)
+        await gwy.start()
+        await vclock.quiesce()
+    else:
+        gwy, port = await stack.make_gateway(eth, config=cfg, known_list=hist.get("known_list"), schema=hist.get("schema"))
+    obs["gwy_id"] = port.gwy_id
     ops_at: dict[int, list[dict]] = {}
     for op in hist.get("ops", []):
         ops_at.setdefault(op["at"], []).append(op)
@@ -143,6 +163,9 @@ async def run_history(loop: vclock.VLoop, hist: dict) -> dict:
                 temp = f"raises {type(e).__name__}"
             from ramses_tx.command import Command
 
+            # traffic can make the gateway queue requests of its own (e.g. RQ|30C9 for zones missing from an array); a full send
+            # buffer is back-pressure, not breakage: let the queue drain before asking whether the gateway can still send
+            await asyncio.sleep(hist.get("drain", 120.0))
             n0 = len(port.tx_log)
             sent: Any = None
             try:
